@@ -140,6 +140,11 @@ def kernels(ctx):
     infer.mala_rule(ctx)
     infer.hmc_rule(ctx)
     infer.resample_index_rule(ctx)
+    # the SMC operations are trace producers too: what init/extend/rejuvenate hand to generate/update (constraints win over proposed
+    # values at an observed address; the kernel's output trace is kept whole) decides whether particle traces stay coherent
+    infer.smc_init_rule(ctx)
+    infer.smc_extend_rule(ctx)
+    infer.smc_rejuvenate_rule(ctx)
 
 
 RULES = [all_methods, gfi.trace_accessors, dist_telescopes, get_args_format, trace_field_ownership, kernels]
